@@ -920,15 +920,13 @@ func failingRequireMatch(f *Func, r *ast.ReturnStmt) bool {
 	if !ok || !f.CallIs(call, "sql.Parser.requireMatch") || len(call.Args) != 1 {
 		return false
 	}
-	want := "p.Cur().Type!=" + exprKey(call.Args[0])
-	found := false
-	ast.Inspect(f.Decl.Body, func(x ast.Node) bool {
-		if ifs, ok := x.(*ast.IfStmt); ok && exprKey(ifs.Cond) == want && ifs.Body.Pos() <= r.Pos() && r.End() <= ifs.Body.End() {
-			found = true
-		}
-		return true
-	})
-	return found
+	// requireMatch(T) fails where the current token is known not to be T, however that test is written
+	g := f.Graph()
+	loc, ok := g.Locate(r)
+	if !ok {
+		return false
+	}
+	return g.HoldsAt(loc, Rel{recvName(f) + ".Cur().Type", token.NEQ, exprKey(call.Args[0])})
 }
 
 func sideInternalNonEmpty(c *Ctx) (bool, string) {
